@@ -117,18 +117,32 @@ func dirHash(dir string) string {
 // dirShape lists the files of a directory tree by rank and size.
 func dirShape(dir string) string {
 	var parts []string
+	newest, newestSize := "", int64(-1)
 	filepath.Walk(dir, func(path string, info os.FileInfo, err error) error {
 		if err != nil || info.IsDir() {
 			return nil
 		}
 		rel, _ := filepath.Rel(dir, path)
 		name := filepath.Base(rel)
+		if strings.HasPrefix(name, "filestore_") {
+			// superseded data files are removed by a background task at a moment of its own choosing: only the
+			// newest one (names sort by creation time) belongs to the shape; its compressed size varies by a few
+			// bytes with the wall-clock based offsets it embeds
+			if rel > newest {
+				newest, newestSize = rel, info.Size()
+			}
+			return nil
+		}
 		if name != "offset" {
 			name = "#"
 		}
 		parts = append(parts, fmt.Sprintf("%s/%s:%d", filepath.Dir(rel), name, info.Size()))
 		return nil
 	})
+	if newest != "" {
+		_ = newestSize // compressed size: varies by a few bytes between processes, not part of the shape
+		parts = append(parts, fmt.Sprintf("%s/filestore:present", filepath.Dir(newest)))
+	}
 	return strings.Join(parts, ";")
 }
 
@@ -450,13 +464,18 @@ func c02Run(c *fw.Ctx, cs c02Case, conformance bool) {
 				sub := strings.SplitN(img.Point, "|", 2)[0]
 				// (file contents embed wall-clock based WAL offsets, so two processes
 				// never produce identical bytes: compare names by rank and sizes)
-				same := dirShape(filepath.Join(childDir, "_wal")) == dirShape(filepath.Join(img.Dir, "_wal"))
-				if sub != "s" {
-					same = same && dirShape(filepath.Join(childDir, sub)) == dirShape(filepath.Join(img.Dir, sub))
+				shapeOf := func(d string) string {
+					sh := "wal[" + dirShape(filepath.Join(d, "_wal")) + "]"
+					if sub != "s" {
+						sh += " table[" + dirShape(filepath.Join(d, sub)) + "]"
+					}
+					return sh
 				}
+				childShape, imgShape := shapeOf(childDir), shapeOf(img.Dir)
+				same := childShape == imgShape
 				if !same {
 					c.Count("conformance_images_differing", 1)
-					c.Note(fmt.Sprintf("conformance: child killed at %s hit %d left a different directory than the image (table subtree and WAL compared by file rank and size)", img.Point, img.Hit))
+					c.Note(fmt.Sprintf("conformance: child killed at %s hit %d left a different directory than the image (table subtree and WAL compared by file rank and size): history %v child %s image %s", img.Point, img.Hit, cs.Events, childShape, imgShape))
 				} else {
 					c.Trace(1)
 				}
